@@ -153,6 +153,10 @@ def corrmtx(x_input, m, method='autocorrelation'):
         x = numpy.array(x_input)
     else:
         x = x_input.copy()
+    # integer samples (e.g. 16-bit PCM data): the data matrix is used in
+    # products that must not be formed in a (possibly narrow) integer dtype
+    if x.dtype.kind in 'iub':
+        x = x.astype(float)
 
 
     if x.dtype == complex:
